@@ -173,7 +173,7 @@ class Machine:
         s.stack = []
         s.pc = []                     # list of z3 Bool
         s.solver = z3.Solver()
-        s.solver.set('timeout', s.opts.get('solver_timeout_ms', 20000))
+        s.solver.set('timeout', s.opts.get('solver_timeout_ms', 60000))
         s.prefix = prefix
         s.decisions = []
         s.new_prefixes = []
@@ -542,7 +542,7 @@ class Machine:
         if s.nl:
             # nonlinear path condition: z3's incremental core is weak on NRA; a fresh solver runs the full
             # (nlsat-based) pipeline and decides these small queries quickly
-            slv = z3.Solver(); slv.set('timeout', s.opts.get('solver_timeout_ms', 20000))
+            slv = z3.Solver(); slv.set('timeout', s.opts.get('solver_timeout_ms', 60000))
             slv.add(*s.pc)
             if extra is not None: slv.add(extra)
             r = slv.check()
@@ -903,9 +903,19 @@ class Machine:
         t0 = time.time(); r = s2.check(); s.stats['solver_s'] += time.time() - t0; s.stats['solver_calls'] += 1
         if r == z3.unsat: return None
         if r == z3.unknown:
-            # last resort: round the relaxed model and test it by evaluation
-            cand = [(n, k, (Fraction(round(fr)) if k != 'real' else fr)) for (n, k, fr) in vals]
-            if s.holds_under(cand, extra): return cand
+            # last resort: integral points next to the relaxed model (every floor/ceil combination), tested by evaluation
+            import itertools, math as _m
+            opts_ = []
+            for (n, k, fr) in vals:
+                if k == 'real' or fr.denominator == 1: opts_.append([fr])
+                else: opts_.append([Fraction(_m.floor(fr)), Fraction(_m.ceil(fr))])
+            ncomb = 1
+            for o_ in opts_: ncomb *= len(o_)
+            if ncomb <= 4096:
+                for combo in itertools.product(*opts_):
+                    cand = [(n, k, c_) for ((n, k, fr), c_) in zip(vals, combo)]
+                    if s.holds_under(cand, extra): return cand
+            s.stats['int_recheck_unknown'] += 1
             raise ExecError('integer re-check of a relaxed model returned unknown')
         m2 = s2.model()
         return [(n, k, z3frac(m2.eval(ivars[n] if n in ivars else v, model_completion=True))) for (n, v, k) in s.inputs]
@@ -1688,7 +1698,14 @@ def x_assert(s, fr, ins, a):
                 try: m = s.int_model(z3.And(z3.Not(must), *strict))
                 except ExecError: m = None
             if m is None:
-                m = s.int_model(z3.Not(must)); bandpath = bool(strict)
+                try:
+                    m = s.int_model(z3.Not(must)); bandpath = bool(strict)
+                except ExecError:
+                    # the integer re-solve gave up: hand the rounded relaxed model to the native replay (which decides)
+                    if not s.check(z3.Not(must), use_cache=False): m = None
+                    else:
+                        m = [(n, k, (Fraction(round(fr)) if k != 'real' else fr)) for (n, k, fr) in s.model()]
+                        bandpath = True; s.stats['assert_model_rounded'] += 1
             if os.environ.get('IRSYM_DEBUG'):
                 print('DEBUG   integer model', [str(x[2]) for x in m] if m else None, flush=True)
                 if os.environ.get('IRSYM_DEBUG') == '2': print('DEBUG   formula', t, '\nPC', s.pc, flush=True)
